@@ -58,6 +58,42 @@ def run(tier, seed):
                 chk.seen(("auth", kind, part, i))
             setattr(a, part, orig)
             chk.count(f"auth:{part}", len(orig) * 8)
+    # one AuthenticationCredential object verified, then one of its fields re-assigned (or the buffer behind its memoryview changed) and verified again
+    for kind in ("ES256-P256", "RS256"):
+        s = authcat.Scn(kind)
+        s.cd_extra = {"crossOrigin": False, "pad": "x" * 20}
+        pol, a = s.build()
+        for mode in ("reassign", "writable-buffer"):
+            bufs = {p: bytearray(getattr(a, p)) for p in ("cdj", "ad", "sig")}
+            if mode == "reassign":
+                rec = a.as_record()
+            else:
+                from webauthn.helpers.structs import AuthenticationCredential, AuthenticatorAssertionResponse
+                rec = AuthenticationCredential(id=a.id_text, raw_id=a.cred_id, response=AuthenticatorAssertionResponse(
+                    client_data_json=memoryview(bufs["cdj"]), authenticator_data=memoryview(bufs["ad"]), signature=memoryview(bufs["sig"])))
+            first = impl.verify_auth(pol, rec)
+            chk.evals += 1
+            if not first.startswith("OK"):
+                chk.violation(f"genuine assertion refused ({kind}, {mode})", f"auth-same-object baseline {kind}", {"impl": first})
+                continue
+            fields = {"cdj": "client_data_json", "ad": "authenticator_data", "sig": "signature"}
+            for part, attr in fields.items():
+                orig = bytes(bufs[part])
+                for i in range(0, len(orig) * 8, 5 if quick else 1):
+                    if mode == "reassign":
+                        setattr(rec.response, attr, bytes(orig[: i // 8]) + bytes([orig[i // 8] ^ (1 << (i % 8))]) + orig[i // 8 + 1:])
+                    else:
+                        bufs[part][i // 8] ^= 1 << (i % 8)
+                    il = impl.verify_auth(pol, rec)
+                    chk.evals += 1
+                    if il.startswith("OK"):
+                        chk.violation(f"authentication: the SAME credential object with bit {i} of {part} changed after an earlier verification was accepted ({kind}, {mode})",
+                                      f"auth-flip-same-object {part} {kind} {mode} bit={i}", {"entry": "verify_authentication_response", "kind": kind, "part": part, "bit": i, "mode": mode, "policy": pol.describe(), "credential": a.as_dict()})
+                    if mode == "reassign":
+                        setattr(rec.response, attr, orig)
+                    else:
+                        bufs[part][i // 8] ^= 1 << (i % 8)
+                    chk.seen(("auth-same-object", kind, mode, part, i))
     chk.sample({"ceremony": "authentication ES256-P256", "parts": {"authenticatorData_bits": len(a.ad) * 8, "clientDataJSON_bits": len(a.cdj) * 8, "signature_bits": len(a.sig) * 8}})
     # ---- registration ----
     fmts = ["packed-self", "tpm", "fido-u2f", "android-safetynet"] if quick else [f for f in regsim.FORMATS if f != "none"]
